@@ -131,6 +131,25 @@ MUTANTS = [
     ('pool-unbounded-ignored', 'C19', 'Pool.lean', 'else if s.size == 0 || s.clients.length < s.size then addClient s', 'else if s.clients.length < s.size then addClient s'),
     ('deque-remove-keeps-sema', 'C19', 'Pool.lean', '      else ({ items := d.items.erase x, sema := d.sema - 1 }, .unit)', '      else ({ items := d.items.erase x, sema := d.sema }, .unit)'),
 
+    # ---- fifth batch
+    ('wire-size-without-space', 'C06', 'Wire.lean', '  | some d => [32, 83, 73, 90, 69, 61] ++ d', '  | some d => [83, 73, 90, 69, 61] ++ d'),
+    ('wire-ext-empty-param-kept', 'C06', 'Wire.lean', '  | some p => if p.isEmpty then name else name ++ [32] ++ p', '  | some p => name ++ [32] ++ p'),
+    ('wire-ext-name-not-uppercased', 'C06', 'Wire.lean', '      some (name.map Server.upper, if arg.isEmpty then none else some arg)', '      some (name, if arg.isEmpty then none else some arg)'),
+    ('hop-body-not-cut', 'C06', 'HttpHop.lean', 'rcpts := rcpts, data := r.body.take cl }', 'rcpts := rcpts, data := r.body }'),
+    ('hop-no-rcpt-header-is-error', 'C06', 'HttpHop.lean', '    | none => some []\n    | some raw => if raw.isEmpty then some [] else (splitTokens raw).mapM b64dec', '    | none => none\n    | some raw => if raw.isEmpty then some [] else (splitTokens raw).mapM b64dec'),
+    ('hop-ehlo-default-ignored', 'C06', 'HttpHop.lean', 'pure { ehlo := (environGet r .ehlo).getD dflt,', 'pure { ehlo := (environGet r .ehlo).getD [],'),
+    ('bounce-headers-only-keeps-body', 'C13', 'Bounce.lean', '(x.origHeader ++ ((if x.headersOnly then [] else x.origBody) ++ format true (table x) ftr))', '(x.origHeader ++ (x.origBody ++ format true (table x) ftr))'),
+    ('bounce-content-type-swapped', 'C13', 'Bounce.lean', 'some (if x.headersOnly then str "text/rfc822-headers" else str "message/rfc822")', 'some (if x.headersOnly then str "message/rfc822" else str "text/rfc822-headers")'),
+    ('bounce-no-remote-mta', 'C13', 'Bounce.lean', '      | some h => [str "Remote-MTA: dns; " ++ h]', '      | some h => []'),
+    ('bounce-rcpt-join-plain', 'C13', 'Bounce.lean', 'def joinRcpts (rs : List Bytes) : Bytes := joinWith [13, 10, 45, 32] rs', 'def joinRcpts (rs : List Bytes) : Bytes := joinWith [13, 10] rs'),
+    ('session-lmtp-one-reply', 'C11', 'RelaySession.lean', '  let nAns := if lmtp then accepted else 1', '  let nAns := 1'),
+    ('session-empty-data-skipped', 'C11', 'RelaySession.lean', '        | some (_, r) => failRset (cmds ++ [.empty]) r', '        | some (_, r) => failRset cmds r'),
+    ('client-banner-pipelined', 'C10', 'Client.lean', '  | .banner | .helo | .data | .quit | .custom | .getReply =>\n    let (s1, _) := enqueue s\n    flushNow s1', '  | .banner | .helo | .data | .quit | .custom | .getReply =>\n    let (s1, _) := enqueue s\n    flushUnlessPipelining s1'),
+    ('data-eod-added-without-crlf', 'C05', 'Data.lean', '  if msg.isEmpty || endsWith msg CRLF then [46, 13, 10] else [13, 10, 46, 13, 10]', '  if msg.isEmpty then [46, 13, 10] else [13, 10, 46, 13, 10]'),
+    ('edge-exception-is-451', 'C02', 'Edge.lean', 'def smtpSees (r : Option (List Res)) : Nat := match r with | some l => smtpReply l | none => 421', 'def smtpSees (r : Option (List Res)) : Nat := match r with | some l => smtpReply l | none => 451'),
+    ('sched-poke-does-nothing', 'C12', 'Sched.lean', '  | .poke => some { s with wake := false, poked := s.poked || s.asleep.isSome }', '  | .poke => some s'),
+    ('mx-empty-a-answer-is-host', 'C11', 'Mx.lean', '      if l.isEmpty then .permanent', '      if false then .permanent'),
+
 ]
 
 
@@ -144,6 +163,7 @@ EXPECTED_SURVIVORS = {
     'edge-reply-needs-all-results': 'not driven by the campaign: EnqState is the event-order model behind no_reply_before_writes_complete; its claim is monitored on the code directly (a gated slow write, c02.reply-before-write-completed)',
     'qm-activate-skips-when-active': 'unreachable in calm runs: a message enqueue() has just written is active only if an announcement of it was dequeued before the hand-off, which Calm excludes (the non-calm witness is the known finding of C12)',
     'qm-done-keeps-flight': 'not observable: flight is read only by the verdict of a done step, which the scheduler model admits only while the message is in flight, and every hand-off overwrites it',
+    'mx-empty-a-answer-is-host': 'equivalent: with an empty record list choose_mx finds nothing and the attempt is a permanent failure either way',
     'store-redis-incr-creates-zero': 'not observable: the answer of an update on a removed id is outside the storage contract (compared nowhere), and the counter of the hash it recreates is never read (get raises KeyError)',
 }
 
